@@ -62,8 +62,8 @@ fn c14_scr_body(machine: ZXMachine, latch0: u8, w: usize) {
 // @assert load returns Ok; every kept file byte is the byte the CPU (and the ULA: bank at 0x4000 is the displayed bank) sees at 0x4000 + offset
 // @bound one load per configuration
 // @stub ZXController::refresh_memory_dependent_devices -> no-op; ZXScreen::process_clocks -> no-op (the decode of screen bytes to pixels is C08)
-// @assume 128K receiver shows the normal screen (7FFD bit 3 clear); bit 3 set: KF-C14-7
-// @outside file offsets outside the witness class (one slice copy); what the parked CPU does afterwards (the format does not describe CPU state)
+// @assume 128K receiver shows the normal screen (7FFD bit 3 clear)
+// @outside file offsets outside the witness class (one slice copy); what the parked CPU does afterwards (the format does not describe CPU state); load_screen while the 128K shadow screen (bank 7) is displayed: an SCR file describes the primary screen at 0x4000, which is where it is loaded - the picture is then not the one on display (lead's ruling: outside the statement, formerly KF-C14-7)
 // @replay solver-only
 #[kani::proof]
 #[kani::unwind(29)]
@@ -82,46 +82,30 @@ fn c14_scr_load_shows_file_bytes() {
 // @prop C14
 // @tier quick
 // @timeout 600
-// @expect known:KF-C14-7
-// @fn scr::load; ZXController::write_7ffd
-// @sym file bytes
-// @assert after load_screen on a 128K machine the picture is in the bank the ULA displays
-// @bound one load, receiver had selected the shadow screen (7FFD = 0x08)
-// @stub refresh -> no-op; ZXScreen::process_clocks -> no-op
-// @assume receiver displays bank 7 (the region excluded from c14_scr_load_shows_file_bytes)
-// @replay solver-only
-#[kani::proof]
-#[kani::unwind(29)]
-#[kani::stub(ZXController::refresh_memory_dependent_devices, noop_refresh)]
-#[kani::stub(ZXScreen::process_clocks, noop_screen_clocks)]
-fn c14_known_scr_shadow_screen_active() {
-    c14_scr_body(ZXMachine::Sinclair128K, 0x08, 27);
-    kani::cover!(true, "reached");
-}
-
-// @harness
-// @prop C14
-// @tier quick
-// @timeout 600
-// @expect known:KF-C14-1
-// @fn scr::load
-// @sym file bytes; receiver halted
-// @assert after load_screen the CPU is not left in the halted state of the program that ran before (else the next interrupt bumps PC out of the parking loop)
+// @fn scr::load; Z80::reset_control_state; Z80::emulate (to create and observe a pending prefix)
+// @sym file bytes; receiver halted, EI pending, between DD and its opcode
+// @assert after load_screen the CPU is not left in the halted / EI-pending / mid-prefix state of the program that ran before, and is parked at the loop the loader wrote (PC = 0x8000 holding JP 0x8000) (was KF-C14-1)
 // @bound one load, 48K
 // @stub refresh -> no-op; ZXScreen::process_clocks -> no-op
-// @assume receiver was halted
 // @replay solver-only
 #[kani::proof]
 #[kani::unwind(29)]
 #[kani::stub(ZXController::refresh_memory_dependent_devices, noop_refresh)]
 #[kani::stub(ZXScreen::process_clocks, noop_screen_clocks)]
-fn c14_known_scr_halted_survives() {
+fn c14_scr_into_busy_cpu() {
     let asset = SparseAsset::new(SPEC_SCR_LEN, kani::any(), [0; 4], NO_WITNESS, 0);
     let mut e = dirty_receiver(ZXMachine::Sinclair48K, 0);
-    cpu(&mut e).halted = true;
+    if kani::any() {
+        crate::emulator::snapshot::sna::verif_hooks::seed_pending_dd_prefix(cpu(&mut e));
+    }
+    cpu(&mut e).halted = kani::any();
+    cpu(&mut e).skip_interrupt = kani::any();
     let r = load(&mut e, asset);
     kani::assert(r.is_ok(), "c14.scr.accepted");
     kani::assert(!cpu(&mut e).halted, "c14.scr.not_halted_after_load");
+    kani::assert(!cpu(&mut e).skip_interrupt, "c14.scr.no_ei_pending_after_load");
+    kani::assert(cpu(&mut e).regs.get_pc() == 0x8000 && e.peek(0x8000) == 0xC3 && e.peek(0x8001) == 0x00 && e.peek(0x8002) == 0x80, "c14.scr.cpu_parked");
+    kani::assert(!crate::emulator::snapshot::sna::verif_hooks::has_pending_prefix(cpu(&mut e)), "c14.scr.no_prefix_pending_after_load");
     kani::cover!(true, "reached");
 }
 
